@@ -15,6 +15,7 @@ type inst struct {
 
 func groundSubterms(ts []*Term) []*Term {
 	seen := map[*Term]bool{}
+	seenStr := map[string]bool{}
 	var out []*Term
 	var visit func(t *Term, underQ bool)
 	visit = func(t *Term, underQ bool) {
@@ -29,6 +30,18 @@ func groundSubterms(ts []*Term) []*Term {
 		for _, a := range t.Args {
 			visit(a, underQ)
 		}
+		// what the term reads when the store in front of it is at another index:
+		// select(store(a, i, v), j) ~> select(a, j). The solvers see these only after
+		// rewriting; as extra ground terms they let triggers match across updates.
+		if t.Op == "select" && len(out) < 4000 {
+			for _, a := range arrayAlts(t.Args[0]) {
+				nt := Select(a, t.Args[1])
+				if k := nt.String(); !seenStr[k] {
+					seenStr[k] = true
+					visit(nt, underQ)
+				}
+			}
+		}
 		if t.Sym != nil && t.Sym.Def != nil {
 			visit(t.Sym.Def, underQ)
 		}
@@ -37,6 +50,21 @@ func groundSubterms(ts []*Term) []*Term {
 		visit(t, false)
 	}
 	return out
+}
+
+// arrayAlts: arrays that agree with arr at every index but the one last written.
+func arrayAlts(arr *Term) []*Term {
+	r := resolve(arr)
+	switch r.Op {
+	case "store":
+		return []*Term{r.Args[0]}
+	case "select":
+		// a row of a two-level heap: select(store(h, ref, row), ref2) is row or select(h, ref2)
+		if h := resolve(r.Args[0]); h.Op == "store" {
+			return []*Term{h.Args[2], Select(h.Args[0], r.Args[1])}
+		}
+	}
+	return nil
 }
 
 func isBound(t *Term, vars []*Term) bool {
@@ -134,44 +162,114 @@ func topQuants(as []*Term) []*Term {
 	return out
 }
 
-// instantiate produces ground instances of triggered quantifiers, up to rounds/cap.
+// instantiate produces ground instances of triggered quantifiers, goal first: the
+// terms of the goal (then of the instances they produce) drive the matching; the
+// patterns of a multi-pattern other than the driving one may match any ground
+// term of the query. A last phase lets the assumptions' own terms drive.
 func instantiate(as []*Term, goal *Term, rounds, cap int) []*Term {
 	qs := topQuants(as)
 	if len(qs) == 0 {
 		return nil
 	}
+	var ground []*Term
+	for _, a := range as {
+		if !hasQuant(a) {
+			ground = append(ground, a)
+		}
+	}
+	type idx map[string][]*Term
+	head := func(t *Term) string {
+		r := t
+		if r.Sym != nil && r.Sym.Def != nil && len(r.Args) == 0 {
+			r = resolve(r)
+		}
+		return r.Op + "/" + r.Sort.Name
+	}
+	all := idx{}
+	allSeen := map[string]bool{}
+	addAll := func(ts []*Term) {
+		for _, t := range ts {
+			k := t.String()
+			if allSeen[k] {
+				continue
+			}
+			allSeen[k] = true
+			h := head(t)
+			all[h] = append(all[h], t)
+		}
+	}
+	addAll(groundSubterms(append(append([]*Term{}, ground...), goal)))
 	var insts []*Term
 	seen := map[string]bool{}
-	pool := append(append([]*Term{}, as...), goal)
-	for r := 0; r < rounds && len(insts) < cap; r++ {
-		gs := groundSubterms(pool)
-		var fresh []*Term
-		for _, q := range qs {
-			for _, p := range q.Q.Pats {
-				for _, g := range gs {
-					bind := map[*Term]*Term{}
-					if !matchTerm(p, g, q.Q.Vars, bind) || len(bind) != len(q.Q.Vars) {
-						continue
-					}
-					body := substTerm(q.Q.Body, bind, map[*Term]*Term{})
-					k := body.String()
-					if seen[k] {
-						continue
-					}
-					seen[k] = true
-					fresh = append(fresh, body)
-					if len(insts)+len(fresh) >= cap {
-						break
+	// extend: all ways to extend bind by matching pats[k:] (skipping index skip) against `all`
+	var extend func(q *Term, k, skip int, bind map[*Term]*Term, out *[]map[*Term]*Term)
+	extend = func(q *Term, k, skip int, bind map[*Term]*Term, out *[]map[*Term]*Term) {
+		if len(*out) > 64 {
+			return
+		}
+		if k == len(q.Q.Pats) {
+			if len(bind) == len(q.Q.Vars) {
+				*out = append(*out, bind)
+			}
+			return
+		}
+		if k == skip {
+			extend(q, k+1, skip, bind, out)
+			return
+		}
+		p := q.Q.Pats[k]
+		for _, g := range all[head(p)] {
+			nb := map[*Term]*Term{}
+			for a, b := range bind {
+				nb[a] = b
+			}
+			if matchTerm(p, g, q.Q.Vars, nb) {
+				extend(q, k+1, skip, nb, out)
+			}
+		}
+	}
+	run := func(focus []*Term, maxRounds int) {
+		for r := 0; r < maxRounds && len(insts) < cap && len(focus) > 0; r++ {
+			fidx := idx{}
+			for _, t := range focus {
+				h := head(t)
+				fidx[h] = append(fidx[h], t)
+			}
+			var fresh []*Term
+			for _, q := range qs {
+				for pi, p := range q.Q.Pats {
+					for _, g := range fidx[head(p)] {
+						bind := map[*Term]*Term{}
+						if !matchTerm(p, g, q.Q.Vars, bind) {
+							continue
+						}
+						var binds []map[*Term]*Term
+						extend(q, 0, pi, bind, &binds)
+						for _, b := range binds {
+							body := substTerm(q.Q.Body, b, map[*Term]*Term{})
+							k := body.String()
+							if seen[k] {
+								continue
+							}
+							seen[k] = true
+							fresh = append(fresh, body)
+						}
+						if len(insts)+len(fresh) >= cap {
+							break
+						}
 					}
 				}
 			}
+			if len(fresh) == 0 {
+				break
+			}
+			insts = append(insts, fresh...)
+			focus = groundSubterms(fresh)
+			addAll(focus)
 		}
-		if len(fresh) == 0 {
-			break
-		}
-		insts = append(insts, fresh...)
-		pool = fresh
 	}
+	run(groundSubterms([]*Term{goal}), rounds+1)
+	run(groundSubterms(ground), rounds)
 	sort.SliceStable(insts, func(i, j int) bool { return len(insts[i].String()) < len(insts[j].String()) })
 	return insts
 }
